@@ -116,7 +116,8 @@ def check_hp(ctx: Ctx, case):
 @st.composite
 def filter_cases(draw):
     which = draw(st.sampled_from(["hp1600", "log_hp", "diff_log"]))
-    return {"which": which, "series": draw(series(positive=which != "hp1600"))}
+    return {"which": which, "series": draw(series(positive=which != "hp1600")),
+            "as_int": draw(st.sampled_from([False, False, True]))}
 
 
 def check_filters(ctx: Ctx, case):
@@ -125,13 +126,18 @@ def check_filters(ctx: Ctx, case):
     sub = "derived_filters"
     y = build(case["series"])
     which = case["which"]
-    ctx.count(sub, case, nontrivial(y), [which, case["series"]["shape"]])
+    if case.get("as_int") and np.max(np.abs(y)) < 1e15:
+        # counts (e.g. infected individuals) arrive as integer arrays; keep them positive for the log filters
+        y = np.rint(y * (10.0 if np.max(np.abs(y)) < 50 else 1.0)).astype(np.int64)
+        if which != "hp1600":
+            y = np.abs(y) + 1
+    ctx.count(sub, case, nontrivial(y), [which, case["series"]["shape"], str(y.dtype)])
     m = float(np.max(np.abs(y))) or 1e-300
     with guard(ctx, "C20/exception", sub, case):
         ts.hp_filter(np.linspace(0.0, 1.0, len(y)) ** 2, 3.0)  # an earlier evaluation with another lambda, same length
         if which == "hp1600":
             out = ts.hp_cycle_lamb1600_filter(y)
-            base = y
+            base = y.astype(float)
         elif which == "log_hp":
             out = ts.log_and_hp_filter(y)
             base = np.log(y)
